@@ -59,13 +59,26 @@ proof fn lemma_words_le_take(d: Seq<u64>, n: int)
     assert(t.last() == d[n]);
 }
 
+// the decoded views (the same definitions as in units BITVEC / BITPACK)
+pub open spec fn bit(w: u64, k: int) -> bool { (w >> (k as u64)) & 1 == 1 }
+pub open spec fn bv_elem(data: Seq<u64>, i: int) -> bool { bit(data[i / 64], i % 64) }
+pub open spec fn bv_view(data: Seq<u64>, len: usize) -> Seq<bool> { Seq::new(len as nat, |i: int| bv_elem(data, i)) }
+pub open spec fn mask_of(bits: u64) -> u64 { if bits >= 64 { u64::MAX } else { ((1u64 << bits) - 1) as u64 } }
+pub open spec fn field(w: u64, off: u64, bits: u64) -> u64 { (w >> off) & mask_of(bits) }
+pub open spec fn elem_of(data: Seq<u64>, bits: u8, i: int) -> u64 {
+    if bits == 0 { 0 } else {
+        field(data[i / (64int / (bits as int))], ((i % (64int / (bits as int))) * (bits as int)) as u64, bits as u64)
+    }
+}
+pub open spec fn view_of(data: Seq<u64>, bits: u8, count: usize) -> Seq<u64> { Seq::new(count as nat, |i: int| elem_of(data, bits, i)) }
+
 @@BitVector@@
 impl BitVector {
     pub open spec fn nw(&self) -> int { (self.len + 63) / 64 }
     /// the serialised form: len as u32, then the words
     pub open spec fn ser(&self) -> Seq<u8> { le4(self.len as u32) + words_le(self.data@) }
     /// blocks the byte format can carry: at most u32::MAX bits, exactly the words those bits need (what every constructor builds)
-    pub open spec fn ser_ok(&self) -> bool { self.len <= u32::MAX && self.data@.len() == self.nw() }
+    pub open spec fn ser_ok(&self) -> bool { self.len <= u32::MAX && self.data@.len() >= self.nw() }
 
     @@BitVector::to_bytes@@
 
@@ -78,7 +91,7 @@ impl BitPackedInts {
         if self.bits_per_value == 0 || self.count == 0 { 0int } else { (self.count + (64int / (self.bits_per_value as int)) - 1) / (64int / (self.bits_per_value as int)) }
     }
     pub open spec fn ser(&self) -> Seq<u8> { seq![self.bits_per_value] + le4(self.count as u32) + words_le(self.data@) }
-    pub open spec fn ser_ok(&self) -> bool { self.count <= u32::MAX && self.bits_per_value <= 64 && self.data@.len() == self.nw() }
+    pub open spec fn ser_ok(&self) -> bool { self.count <= u32::MAX && self.bits_per_value <= 64 && self.data@.len() >= self.nw() }
 
     pub proof fn lemma_nw_le_count(&self)
         requires self.bits_per_value <= 64
@@ -89,6 +102,24 @@ impl BitPackedInts {
             assert(v >= 1) by (nonlinear_arith) requires v == 64int / (self.bits_per_value as int), 1 <= self.bits_per_value <= 64;
             assert((self.count + v - 1) / v <= self.count && (self.count + v - 1) / v >= 0) by (nonlinear_arith) requires v >= 1, self.count >= 1;
         }
+    }
+
+    /// decoding reads only the first nw() words
+    pub proof fn lemma_view_needs_only_nw_words(&self)
+        requires self.bits_per_value <= 64, self.data@.len() >= self.nw(),
+        ensures view_of(self.data@.take(self.nw()), self.bits_per_value, self.count) == view_of(self.data@, self.bits_per_value, self.count)
+    {
+        self.lemma_nw_le_count();
+        if self.bits_per_value != 0 && self.count != 0 {
+            let v = 64int / (self.bits_per_value as int);
+            let c = self.count as int;
+            assert(v >= 1) by (nonlinear_arith) requires v == 64int / (self.bits_per_value as int), 1 <= self.bits_per_value <= 64;
+            assert forall|i: int| 0 <= i < c implies #[trigger] elem_of(self.data@.take(self.nw()), self.bits_per_value, i) == elem_of(self.data@, self.bits_per_value, i) by {
+                assert(i / v < (c + v - 1) / v && i / v >= 0) by (nonlinear_arith) requires v >= 1, 0 <= i < c;
+                assert(i / v < self.nw());
+            }
+        }
+        assert(view_of(self.data@.take(self.nw()), self.bits_per_value, self.count) =~= view_of(self.data@, self.bits_per_value, self.count));
     }
 
     @@BitPackedInts::to_bytes@@
@@ -108,7 +139,8 @@ impl DeltaBitPacked {
 @@DeltaEncoding@@
 impl DeltaEncoding {
     pub open spec fn ser(&self) -> Seq<u8> { le8(self.base) + le4(self.count as u32) + words_le(self.deltas@) }
-    pub open spec fn ser_ok(&self) -> bool { self.count <= u32::MAX && self.deltas@.len() == (if self.count == 0 { 0 } else { self.count - 1 }) }
+    pub open spec fn nd(&self) -> int { if self.count == 0 { 0 } else { self.count - 1 } }
+    pub open spec fn ser_ok(&self) -> bool { self.count <= u32::MAX && self.deltas@.len() >= self.nd() }
 
     @@DeltaEncoding::to_bytes@@
 
@@ -116,18 +148,49 @@ impl DeltaEncoding {
 }
 
 // ---- the C15 clause, over the contracts alone -----------------------------------------------------------
+// from_bytes(to_bytes(x)) has the same header fields and exactly the words the header calls for (trailing spare words, which no
+// constructor creates but the type allows, are not carried) - and therefore DECODES to the same sequence (lemmas below).
 fn bitvec_bytes_roundtrip(x: &BitVector) -> (r: io::Result<BitVector>)
-    requires x.ser_ok(), ensures r is Ok && r->Ok_0.len == x.len && r->Ok_0.data@ == x.data@,
-{ let b = x.to_bytes(); BitVector::from_bytes(b.as_slice()) }
+    requires x.ser_ok(), x.data@.len() <= 0x0fff_ffff_ffff_ffff,
+    ensures r is Ok && r->Ok_0.len == x.len && r->Ok_0.data@ == x.data@.take(x.nw()), bv_view(r->Ok_0.data@, r->Ok_0.len) == bv_view(x.data@, x.len),
+{
+    let b = x.to_bytes();
+    let r = BitVector::from_bytes(b.as_slice());
+    proof { assert(bv_view(x.data@.take(x.nw()), x.len) =~= bv_view(x.data@, x.len)); }
+    r
+}
 fn bitpack_bytes_roundtrip(x: &BitPackedInts) -> (r: io::Result<BitPackedInts>)
-    requires x.ser_ok(), ensures r is Ok && r->Ok_0.count == x.count && r->Ok_0.bits_per_value == x.bits_per_value && r->Ok_0.data@ == x.data@,
-{ proof { x.lemma_nw_le_count(); } let b = x.to_bytes(); proof { axiom_le(); assert(b@[0] == x.bits_per_value); } BitPackedInts::from_bytes(b.as_slice()) }
+    requires x.ser_ok(), x.data@.len() <= 0x0fff_ffff_ffff_ffff,
+    ensures r is Ok && r->Ok_0.count == x.count && r->Ok_0.bits_per_value == x.bits_per_value && r->Ok_0.data@ == x.data@.take(x.nw()),
+            view_of(r->Ok_0.data@, r->Ok_0.bits_per_value, r->Ok_0.count) == view_of(x.data@, x.bits_per_value, x.count),
+{
+    let b = x.to_bytes();
+    proof { axiom_le(); assert(b@[0] == x.bits_per_value); }
+    let r = BitPackedInts::from_bytes(b.as_slice());
+    proof { x.lemma_view_needs_only_nw_words(); }
+    r
+}
 fn delta_bitpacked_bytes_roundtrip(x: &DeltaBitPacked) -> (r: io::Result<DeltaBitPacked>)
-    requires x.deltas.ser_ok(), ensures r is Ok && r->Ok_0.base == x.base && r->Ok_0.deltas.count == x.deltas.count && r->Ok_0.deltas.bits_per_value == x.deltas.bits_per_value && r->Ok_0.deltas.data@ == x.deltas.data@,
-{ proof { x.deltas.lemma_nw_le_count(); } let b = x.to_bytes(); proof { axiom_le(); assert(b@[8] == x.deltas.bits_per_value); } DeltaBitPacked::from_bytes(b.as_slice()) }
+    requires x.deltas.ser_ok(), x.deltas.data@.len() <= 0x0fff_ffff_ffff_ff00,
+    ensures r is Ok && r->Ok_0.base == x.base && r->Ok_0.deltas.count == x.deltas.count && r->Ok_0.deltas.bits_per_value == x.deltas.bits_per_value && r->Ok_0.deltas.data@ == x.deltas.data@.take(x.deltas.nw()),
+            view_of(r->Ok_0.deltas.data@, r->Ok_0.deltas.bits_per_value, r->Ok_0.deltas.count) == view_of(x.deltas.data@, x.deltas.bits_per_value, x.deltas.count),
+{
+    let b = x.to_bytes();
+    proof { axiom_le(); assert(b@[8] == x.deltas.bits_per_value); }
+    let r = DeltaBitPacked::from_bytes(b.as_slice());
+    proof { x.deltas.lemma_view_needs_only_nw_words(); }
+    r
+}
 fn delta_bytes_roundtrip(x: &DeltaEncoding) -> (r: io::Result<DeltaEncoding>)
-    requires x.ser_ok(), ensures r is Ok && r->Ok_0.base == x.base && r->Ok_0.count == x.count && r->Ok_0.deltas@ == x.deltas@,
-{ let b = x.to_bytes(); DeltaEncoding::from_bytes(b.as_slice()) }
+    requires x.ser_ok(), x.deltas@.len() <= 0x0fff_ffff_ffff_ff00,
+    ensures r is Ok && r->Ok_0.base == x.base && r->Ok_0.count == x.count && r->Ok_0.deltas@ == x.deltas@.take(x.nd()),
+            x.deltas@.len() == x.nd() ==> r->Ok_0.deltas@ == x.deltas@,          // delta.rs: wf is count == 0 || count == deltas.len() + 1
+{
+    let b = x.to_bytes();
+    let r = DeltaEncoding::from_bytes(b.as_slice());
+    proof { if x.deltas@.len() == x.nd() { assert(x.deltas@.take(x.nd()) =~= x.deltas@); } }
+    r
+}
 
 } // verus!
 fn main() {}
@@ -168,10 +231,10 @@ def build(repo):
     to_bytes(u, BV, 'BitVector', 'data', 'le4(self.len as u32)', 'self.data@.len() <= 0x0fff_ffff_ffff_ffff')
     f = u.method(BV, 'BitVector', 'from_bytes').D1().R24().R26().ret('r')
     Q = 'forall|x: BitVector| x.ser_ok() && bytes@ == #[trigger] x.ser()'
-    f.ensures('inverse_of_to_bytes', Q + ' ==> r is Ok && r->Ok_0.len == x.len && r->Ok_0.data@ == x.data@')
+    f.ensures('inverse_of_to_bytes', Q + ' ==> r is Ok && r->Ok_0.len == x.len && r->Ok_0.data@ == x.data@.take(x.nw())')
     f.body_start('proof { axiom_le(); }')
     f.before('if bytes.len() < 4 + num_words * 8', '''proof {
-    assert %s implies x.len == len && bytes@.len() == 4 + num_words * 8 by { lemma_words_le(x.data@); assert(bytes@.subrange(0, 4) =~= le4(x.len as u32)); }
+    assert %s implies x.len == len && bytes@.len() >= 4 + num_words * 8 by { lemma_words_le(x.data@); assert(bytes@.subrange(0, 4) =~= le4(x.len as u32)); }
 }''' % Q)
     L = f.loop(0).kind('for')
     L.invariants(('bounds', 'bytes@.len() >= 4 + num_words * 8 && data@.len() == i && num_words == (len + 63) / 64 && len <= u32::MAX && bytes@.len() >= 4 && len == unle4(bytes@.subrange(0, 4))'),
@@ -185,7 +248,7 @@ def build(repo):
     }
 }''' % Q)
     L.after('''proof {
-    assert %s implies data@ == x.data@ && x.len == len by { axiom_le(); assert(bytes@.subrange(0, 4) =~= le4(x.len as u32)); assert(x.data@.take(num_words as int) =~= x.data@); }
+    assert %s implies data@ == x.data@.take(x.nw()) && x.len == len by { axiom_le(); assert(bytes@.subrange(0, 4) =~= le4(x.len as u32)); }
 }''' % Q)
 
     # ---- BitPackedInts ----
@@ -194,7 +257,7 @@ def build(repo):
     f = u.method(BP, 'BitPackedInts', 'from_bytes').D1().R24().R26().ret('r')
     Q = 'forall|x: BitPackedInts| x.ser_ok() && bytes@ == #[trigger] x.ser()'
     HDR = 'assert(bytes@[0] == x.bits_per_value); assert(bytes@.subrange(1, 5) =~= le4(x.count as u32));'
-    f.ensures('inverse_of_to_bytes', Q + ' ==> r is Ok && r->Ok_0.count == x.count && r->Ok_0.bits_per_value == x.bits_per_value && r->Ok_0.data@ == x.data@')
+    f.ensures('inverse_of_to_bytes', Q + ' ==> r is Ok && r->Ok_0.count == x.count && r->Ok_0.bits_per_value == x.bits_per_value && r->Ok_0.data@ == x.data@.take(x.nw())')
     # weakest precondition of `(count + vpw - 1) / vpw` with vpw = 64 / bits: a header byte > 64 makes vpw 0 and the division PANICS (arbitrary bytes are outside C15; every serialised block has bits <= 64)
     f.requires('header_bits_at_most_64', 'bytes@.len() >= 1 ==> bytes@[0] <= 64')
     f.body_start('proof { axiom_le(); }')
@@ -204,7 +267,7 @@ def build(repo):
     assert((c + v - 1) / v <= c) by (nonlinear_arith) requires v >= 1, c >= 1;
 }''')
     f.before('if bytes.len() < 5 + num_words * 8', '''proof {
-    assert %s implies x.count == count && x.bits_per_value == bits_per_value && num_words == x.nw() && bytes@.len() == 5 + num_words * 8 by { lemma_words_le(x.data@); %s }
+    assert %s implies x.count == count && x.bits_per_value == bits_per_value && num_words == x.nw() && bytes@.len() >= 5 + num_words * 8 by { lemma_words_le(x.data@); %s }
 }''' % (Q, HDR))
     L = f.loop(0).kind('for')
     L.invariants(('bounds', 'bytes@.len() >= 5 + num_words * 8 && num_words <= count && data@.len() == i && bytes@.len() >= 5 && count <= u32::MAX && count == unle4(bytes@.subrange(1, 5)) && bits_per_value == bytes@[0]'),
@@ -217,7 +280,7 @@ def build(repo):
     }
 }''' % (Q, HDR))
     L.after('''proof {
-    assert %s implies data@ == x.data@ && x.count == count && x.bits_per_value == bits_per_value by { axiom_le(); %s assert(x.data@.take(num_words as int) =~= x.data@); }
+    assert %s implies data@ == x.data@.take(x.nw()) && x.count == count && x.bits_per_value == bits_per_value by { axiom_le(); %s }
 }''' % (Q, HDR))
 
     # ---- DeltaBitPacked (composes BitPackedInts) ----
@@ -230,7 +293,7 @@ def build(repo):
     f = u.method(BP, 'DeltaBitPacked', 'from_bytes').D1().R24().R25().R26().ret('r')
     f.requires('header_bits_at_most_64', 'bytes@.len() >= 9 ==> bytes@[8] <= 64')
     f.ensures('inverse_of_to_bytes', 'forall|x: DeltaBitPacked| x.deltas.ser_ok() && bytes@ == #[trigger] x.ser() ==> r is Ok && r->Ok_0.base == x.base && r->Ok_0.deltas.count == x.deltas.count'
-              ' && r->Ok_0.deltas.bits_per_value == x.deltas.bits_per_value && r->Ok_0.deltas.data@ == x.deltas.data@')
+              ' && r->Ok_0.deltas.bits_per_value == x.deltas.bits_per_value && r->Ok_0.deltas.data@ == x.deltas.data@.take(x.deltas.nw())')
     f.body_start('proof { axiom_le(); }')
     f.before('let deltas', '''proof {
     assert forall|x: DeltaBitPacked| x.deltas.ser_ok() && bytes@ == #[trigger] x.ser() implies base == x.base && bytes@.subrange(8, bytes@.len() as int) == x.deltas.ser() by {
@@ -246,10 +309,10 @@ def build(repo):
     f.resub('R27', r'for _ in ', 'for i__ in ')          # Verus has no `_` loop pattern
     Q = 'forall|x: DeltaEncoding| x.ser_ok() && bytes@ == #[trigger] x.ser()'
     HDR = 'assert(bytes@.subrange(0, 8) =~= le8(x.base)); assert(bytes@.subrange(8, 12) =~= le4(x.count as u32));'
-    f.ensures('inverse_of_to_bytes', Q + ' ==> r is Ok && r->Ok_0.base == x.base && r->Ok_0.count == x.count && r->Ok_0.deltas@ == x.deltas@')
+    f.ensures('inverse_of_to_bytes', Q + ' ==> r is Ok && r->Ok_0.base == x.base && r->Ok_0.count == x.count && r->Ok_0.deltas@ == x.deltas@.take(x.nd())')
     f.body_start('proof { axiom_le(); }')
     f.before('if bytes.len() < expected_len', '''proof {
-    assert %s implies x.count == count && x.base == base && bytes@.len() == expected_len by { lemma_words_le(x.deltas@); %s }
+    assert %s implies x.count == count && x.base == base && bytes@.len() >= expected_len by { lemma_words_le(x.deltas@); %s }
 }''' % (Q, HDR))
     L = f.loop(0).kind('for')
     # `1..count` with count == 0 is an empty range whose ghost index Verus does not pin to 1: position facts are stated under count >= 1
@@ -265,7 +328,7 @@ def build(repo):
     }
 }''' % (Q, HDR))
     L.after('''proof {
-    assert %s implies deltas@ == x.deltas@ && x.count == count && x.base == base by { axiom_le(); %s assert(x.deltas@.take(x.deltas@.len() as int) =~= x.deltas@); if count == 0 { assert(x.deltas@ =~= Seq::<u64>::empty()); assert(deltas@ =~= Seq::<u64>::empty()); } }
+    assert %s implies deltas@ == x.deltas@.take(x.nd()) && x.count == count && x.base == base by { axiom_le(); %s if count == 0 { assert(deltas@ =~= x.deltas@.take(0)); } }
 }''' % (Q, HDR))
     u.not_covered += ['RunLengthEncoding::{to_bytes, from_bytes} (io::Cursor / Read: no Verus model)', 'behaviour of from_bytes on bytes that are NOT a serialised block (e.g. bits_per_value > 64 divides by zero) - outside the property']
     return u
